@@ -315,7 +315,7 @@ inline void set_rule(const char *rule)
 }
 
 
-inline void space(Chunk *pc, Chunk *next, int av, int min_sp, size_t col_before, size_t col_after)
+inline void space(Chunk *pc, Chunk *next, int av, int min_sp, size_t col_before, size_t col_after, bool qt)
 {
    FILE *f = out();
 
@@ -332,10 +332,10 @@ inline void space(Chunk *pc, Chunk *next, int av, int min_sp, size_t col_before,
    esc_text(f, next->GetStr());
    fputs(",\"rule\":", f);
    esc_cstr(f, st().last_rule);
-   fprintf(f, ",\"av\":%d,\"force\":%d,\"min_sp\":%d,\"d\":%ld,\"oce1\":%zu,\"pp\":%d,\"lang\":%zu}\n",
+   fprintf(f, ",\"av\":%d,\"force\":%d,\"min_sp\":%d,\"d\":%ld,\"oce1\":%zu,\"pp\":%d,\"lang\":%zu,\"qt\":%d}\n",
            av, pc->TestFlags(PCF_FORCE_SPACE) ? 1 : 0, min_sp,
            static_cast<long>(col_after) - static_cast<long>(col_before),
-           pc->GetOrigColEnd(), pc->TestFlags(PCF_IN_PREPROC) ? 1 : 0, cpd.lang_flags);
+           pc->GetOrigColEnd(), pc->TestFlags(PCF_IN_PREPROC) ? 1 : 0, cpd.lang_flags, qt ? 1 : 0);
    st().last_rule = "";
 }
 
